@@ -42,6 +42,24 @@ def loop_head_for(body, inner_bb):
     return hs[0] if hs else None
 
 
+def iterated(src):
+    """`for x in &v`, `for x in v.iter()`, `for x in v.into_iter()` all walk the whole of v: the variable behind the adaptor"""
+    m = re.match(r"^(?:[\w:<>&', ]*::(?:iter|into_iter)\()?(var:\w+)\)?$", src)
+    return m.group(1) if m and src.count('(') == src.count(')') else src
+
+
+def named_bool(body, ov, p):
+    """A test kept in a named bool with a single definition (`let spared = set.contains(..); if !spared {`): the predicate of the switch on it,
+    rewritten over the definition (variable level), so that it reads like the test written in place."""
+    m = re.match(r'^(!?)bool\[var:(\w+)\]$', p)
+    ls = body.var_local(m.group(2)) if m else []
+    if len(ls) != 1 or body.locals[ls[0]] != 'bool':
+        return p
+    if len([d for d in body.defs.get(ls[0], []) if d[2] in ('assign', 'call', 'pcall', 'passign')]) != 1:
+        return p
+    return '%sbool[%s]' % (m.group(1), flow.render(ov.of_local(ls[0])))
+
+
 def _body(prog, ident):
     try:
         return prog.body(ident)
@@ -184,11 +202,11 @@ def run(ctx, prog):
                 ctx.inst('C12.R1', f.short, 'verify #%d: clear only after the verification loop finished' % k, all(c.bb not in r0 for c in clr) and bool(f_e),
                          'clear_data_directory %s' % ('reachable without the loop exit' if any(c.bb in r0 for c in clr) else 'dominated by the loop exit'))
                 src = util.loop_source(f, h)
-                ctx.inst('C12.R1', f.short, 'verify #%d: the loop covers the chain' % k, src in ('var:restore_chain', 'var:incrementals'), 'verification loop iterates %s' % src)
+                ctx.inst('C12.R1', f.short, 'verify #%d: the loop covers the chain' % k, iterated(src) in ('var:restore_chain', 'var:incrementals'), 'verification loop iterates %s' % src)
         # what is extracted is what was verified
         eh = loop_head_for(f, ext[0].bb)
         esrc = util.loop_source(f, eh) if eh is not None else '?'
-        ctx.inst('C12.R1', f.short, 'only verified archives are extracted', esrc == 'var:verified_archives', 'extraction loop iterates %s' % esrc)
+        ctx.inst('C12.R1', f.short, 'only verified archives are extracted', iterated(esrc) == 'var:verified_archives', 'extraction loop iterates %s' % esrc)
         push = [c for c in f.calls if c.callee and c.callee.endswith('::push') and c.args and flow.render(ov.of_operand(c.args[0])) == 'var:verified_archives']
         pv = [flow.render(flow.Origin(f).of_operand(c.args[1])) for c in push]
         ctx.inst('C12.R1', f.short, 'verified_archives records exactly the verified paths', bool(push) and len(push) == len(ver) and all('verify_backup_archive' in x for x in pv),
@@ -211,7 +229,8 @@ def run(ctx, prog):
     cd = ctx.body('C12.R2', 'RestoreManager::clear_data_directory')
     rm = [c.bb for c in cd.calls_to('std::fs::remove_file')]
     atoms = [pathsens.Atom('allow', r'^bool\[arg:options→ClearDirectoryOptions\.allow_clear\]$'),
-             pathsens.Atom('envc', r'^bool\[var:env_confirm\]$'),
+             # (the environment test through its variable, or written in place)
+             pathsens.Atom('envc', r'^bool\[var:env_confirm\]$|^bool\[Result::unwrap_or\(Result::map\(env::var\("BACKUP_ALLOW_CLEAR"\), closure:[^()]*\), 0\)\]$'),
              pathsens.Atom('dry', r'^bool\[arg:options→ClearDirectoryOptions\.dry_run\]$')]
     terms, seen = _explore(cd, atoms, stop_blocks=set(rm))
     arr = [t for t in terms if t[0] in rm]
@@ -223,6 +242,10 @@ def run(ctx, prog):
              'remove_file reached with %s' % bad[:2] if bad else '%d abstract arrivals at the unlink, all confirmed' % len(arr))
     ec = cd.var_local('env_confirm')
     eo = flow.render(flow.Origin(cd).of_local(ec[0])) if ec else ''
+    if not ec:
+        # no variable for it: the value tested in place
+        eo = ([r_ for r_ in (flow.render(flow.Origin(cd).of_local(c.dest['l'])) for c in cd.calls if c.callee and c.is_('re:Result.*::unwrap_or$') and c.dest and not c.dest.get('p'))
+               if 'env::var(' in r_] + [''])[0]
     ctx.inst('C12.R2', cd.short, 'env confirmation = BACKUP_ALLOW_CLEAR equals "true"', '"BACKUP_ALLOW_CLEAR"' in eo and 'unwrap_or' in eo,
              'env_confirm = %s' % eo[:200])
     cl = [b for b in prog.family(cd) if b.kind == 'Closure']
@@ -281,13 +304,28 @@ def run(ctx, prog):
                     fail.append((i, tg))
                 if re.match('^' + rx, p):
                     pas.append((i, tg))
+    in_place = ''
+    if not fail or not pas:
+        # the same comparison with either side behind a named temporary, or the recomputed checksum not kept in a variable: on the fully expanded predicate
+        ccx = r'backup::compute_backup_checksum\([^|]*\)@Continue→Continue\.0'
+        rxf = r'cmp\[\+ (arg:metadata→BackupMetadata\.checksum - %s|%s - arg:metadata→BackupMetadata\.checksum) == 0\]$' % (ccx, ccx)
+        vf = flow.Origin(vb)
+        fail, pas = [], []
+        for i, blk in enumerate(vb.blocks):
+            if blk['t']['k'] == 'switch':
+                for tg, p in flow.switch_edge_predicates(vb, i, vf):
+                    if re.match('^!' + rxf, p):
+                        fail.append((i, tg))
+                    if re.match('^' + rxf, p):
+                        pas.append((i, tg))
+                        in_place = re.search(ccx, p).group(0)
     if not fail or not pas:
         ctx.inst('C12.R3', vb.short, 'Ok only on an equal checksum', False, 'anchor missing: checksum comparison not in a recognised form')
     else:
         errs = flow.err_blocks(vb)
         r = vb.reach([0], avoid_blocks=errs, avoid_edges=pas)
         rf = vb.reach([e[1] for e in fail], avoid_blocks=errs) | (set(e[1] for e in fail) - errs)
-        cc = flow.render(flow.Origin(vb).of_local(vb.var_local('computed_checksum')[0])) if vb.var_local('computed_checksum') else ''
+        cc = flow.render(flow.Origin(vb).of_local(vb.var_local('computed_checksum')[0])) if vb.var_local('computed_checksum') else in_place
         ctx.inst('C12.R3', vb.short, 'Ok only on an equal checksum', not any(x in r for x in vb.return_blocks()) and not any(x in rf for x in vb.return_blocks()) and 'compute_backup_checksum' in cc,
                  'computed = %s' % cc[:120])
     rh = ctx.body('C12.R3', 'backup::read_archive_member_header')
@@ -359,7 +397,7 @@ def run(ctx, prog):
     for i, blk in enumerate(pb.blocks):
         if blk['t']['k'] == 'switch':
             for tg, p in flow.switch_edge_predicates(pb, i, pv):
-                if re.match(r'^!bool\[HashSet::contains\(var:to_keep, .*BackupMetadata\.id\)\]$', p):
+                if re.match(r'^!bool\[HashSet::contains\(var:to_keep, .*BackupMetadata\.id\)\]$', named_bool(pb, pv, p)):
                     notkeep.append((i, tg))
                 if not_young(r'var:age', r'var:min_age_seconds', p):
                     old.append((i, tg))
